@@ -42,6 +42,10 @@ fn macros(out: &mut Out, w: &mut World<Tok>) {
     go!("matrix", "fill", 3, 0, matrix![[t("e"); 0]; 3], vec![]);
     go!("matrix", "rep", 2, 3, matrix![[t("1"), t("2"), t("3")]; 2], vec![s(&["1'", "2'", "3'"]), s(&["1", "2", "3"])]);
     go!("matrix", "rep", 3, 1, matrix![[t("1")]; 3], vec![s(&["1'"]), s(&["1'"]), s(&["1"])]);
+    go!("matrix", "rep", 0, 3, matrix![[t("1"), t("2"), t("3")]; 0], vec![]);
+    go!("matrix", "rep", 1, 2, matrix![[t("1"), t("2")]; 1], vec![s(&["1", "2"])]);
+    go!("matrix", "rows", 2, 0, matrix![[], []], vec![]);
+    go!("matrix", "rows", 1, 0, matrix![[]], vec![]);
     go!("matrix", "rows", 2, 3, matrix![[t("1"), t("2"), t("3")], [t("4"), t("5"), t("6")]], vec![s(&["1", "2", "3"]), s(&["4", "5", "6"])]);
     go!("matrix", "rows", 3, 1, matrix![[t("1")], [t("2")], [t("3")]], vec![s(&["1"]), s(&["2"]), s(&["3"])]);
     go!("matrix", "rows", 1, 2, matrix![[t("1"), t("2")],], vec![s(&["1", "2"])]);
@@ -50,6 +54,10 @@ fn macros(out: &mut Out, w: &mut World<Tok>) {
     go!("row_vec", "rep1", 0, 0, row_vec![t("e"); 0], vec![]);
     go!("col_vec", "list", 3, 0, col_vec![t("1"), t("2"), t("3")], vec![s(&["1"]), s(&["2"]), s(&["3"])]);
     go!("col_vec", "rep1", 2, 0, col_vec![t("e"); 2], vec![s(&["e'"]), s(&["e"])]);
+    go!("col_vec", "rep1", 0, 0, col_vec![t("e"); 0], vec![]);
+    go!("col_vec", "rep1", 1, 0, col_vec![t("e"); 1], vec![s(&["e"])]);
+    go!("row_vec", "rep1", 1, 0, row_vec![t("e"); 1], vec![s(&["e"])]);
+    go!("row_vec", "list", 1, 0, row_vec![t("1")], vec![s(&["1"])]);
     let _ = w;
 }
 
@@ -151,7 +159,7 @@ pub fn run_c19(out: &mut Out, _rng: &mut Rng, tier: Tier) -> String {
     format!(
         "row conversions: zero rows, and for every row count 1..={maxrows} and first-row length 0..={maxlen}: the uniform input and every input with one deviating row (one shorter, one or two longer) at every position, plus ragged inputs whose total matches a rectangle \
          (3,2,4 / 2,3,1 / 1,3 / 3,1 / 2,2,1,3 / 0,2 / 2,0 / 0,0,1), through TryFrom<Vec<Vec<T>>>, TryFrom<&[Vec<T>]>, TryFrom<[Vec<T>; C]>, FromIterator, and (uniform inputs) From<[[T; C]; R]>, From<Vec<[T; C]>>, From<&[[T; C]]>; from_row/from_col for n = 0..=5; \
-         with_value / with_default / with_initializer (calls recorded) for every shape 0..=4 x 0..=4; 14 literal macro invocations covering every arm of matrix!/row_vec!/col_vec!. Elements are tokens with destructors (clones visible as primes). \
+         with_value / with_default / with_initializer (calls recorded) for every shape 0..=4 x 0..=4; 22 literal macro invocations covering every arm (zero rows, zero-length rows and single elements included) of matrix!/row_vec!/col_vec!. Elements are tokens with destructors (clones visible as primes). \
          Oracle: rows in order or LengthInconsistent / panic, never accepted or truncated; initializer call sequence; ledger balanced at the end (rejected owned inputs dropped exactly once). A case = one input through all conversion kinds"
     )
 }
